@@ -339,6 +339,13 @@ fn feed(stream: &[u8], cuts: &[usize]) -> Result<(Vec<Frame>, usize), String> {
 }
 
 fn check_chunking(seq: &[Frame], stream: &[u8], cuts: &[usize]) -> Result<(), (String, String)> {
+    if stream.is_empty() && !seq.is_empty() {
+        // the sequence could not even be encoded into one buffer
+        return match try_encode_seq(seq) {
+            Err(e) => Err(("sequence:encode-refused".into(), e)),
+            Ok(_) => Err(("sequence:encode-empty".into(), "encoding a non-empty sequence produced no bytes".into())),
+        };
+    }
     let r = guarded(|| feed(stream, cuts))
         .map_err(|(m, l)| (panic_fingerprint("chunk", &m, &l), format!("decode panicked: {m} at {l}")))?;
     match r {
@@ -355,13 +362,23 @@ fn check_chunking(seq: &[Frame], stream: &[u8], cuts: &[usize]) -> Result<(), (S
     }
 }
 
+/// Encode a sequence into ONE buffer, as FramedWrite does between flushes. A refusal of a
+/// frame that is within the limit is reported by the caller as a violation.
 fn encode_seq(seq: &[Frame]) -> Vec<u8> {
+    match try_encode_seq(seq) {
+        Ok(v) => v,
+        Err(_) => Vec::new(),
+    }
+}
+
+fn try_encode_seq(seq: &[Frame]) -> Result<Vec<u8>, String> {
     let mut codec = MessageCodec;
     let mut dst = BytesMut::new();
-    for f in seq {
-        codec.encode(f.clone(), &mut dst).expect("pool frame must encode");
+    for (i, f) in seq.iter().enumerate() {
+        let r = guarded(|| codec.encode(f.clone(), &mut dst)).map_err(|(m, l)| format!("encoding frame {i} of a sequence into one buffer panicked: {m} at {l}"))?;
+        r.map_err(|e| format!("frame {i} of a sequence ({}) was refused when encoded behind {} queued bytes: {e}", describe(f), dst.len()))?;
     }
-    dst.to_vec()
+    Ok(dst.to_vec())
 }
 
 /// Decoder given only a header (+ `extra` payload bytes).
